@@ -297,3 +297,4 @@ extend("C01", "A-INDENT", "no declaration leaves the emitter's indentation raise
 extend("C03", "", "maps whose typed value schema also carries a not keyword keep the typed value; compositions of nullable-object branches stay structs.")
 extend("C11", "", "compositions of nullable-object branches.")
 extend("C02", "", "a declared array type does not measure its inner arrays against the outer limits.")
+extend("C16", "A-IDENT", "whatever the user's capitalizations (also ones that start lower-case), every name still becomes a valid exported identifier.")
